@@ -300,6 +300,19 @@ def judge_export_segment(ctx, gspec, tagspec, sr, cast, o):
     got = (seg.onset_s, seg.offset_s, seg.onset_sample, seg.offset_sample, seg.label)
     if got != want[1:]:
         ctx.violate("export_segment:values", "export_segment:values", observed=list(got), expected=list(want[1:]), spec=spec)
+        return
+    if ctx.evaluations % 3 == 0:
+        g2 = {"type": "TimeInterval", "coordinates": [want[1] + 1.5, want[2] + 4.0]}
+        ann.sound_event.geometry = geoms.build(g2)
+        want2 = ref_segment(g2, tagspec, sr, cast, o)
+        ctx.mon("export_after_in_place_edit")
+        try:
+            seg2 = S.segment_from_annotation(ann, cast_to_segment=cast, **_mk_from_kwargs(o))
+            got2 = (seg2.onset_s, seg2.offset_s, seg2.onset_sample, seg2.offset_sample, seg2.label)
+            if got2 != want2[1:]:
+                ctx.violate("export_segment:values", "export_segment:values:stale_after_in_place_edit", observed=list(got2), expected=list(want2[1:]), spec=dict(spec, edited_to=g2))
+        except ValueError:
+            pass
 
 
 def ref_bbox(gspec, tagspec, sr, cast, raise_time, o):
@@ -343,6 +356,21 @@ def judge_export_bbox(ctx, gspec, tagspec, sr, cast, raise_time, o):
     got = (bb.onset, bb.offset, bb.low_freq, bb.high_freq, bb.label)
     if got != want[1:]:
         ctx.violate("export_bbox:values", "export_bbox:values", observed=list(got), expected=list(want[1:]), spec=spec)
+        return
+    # the annotation is edited in place (its sound event gets another geometry) and exported again: the export
+    # must span the CURRENT geometry
+    if ctx.evaluations % 3 == 0:
+        g2 = {"type": "BoundingBox", "coordinates": [want[1] + 1.5, 10.0, want[2] + 4.0, 20.0]}
+        ann.sound_event.geometry = geoms.build(g2)
+        want2 = ref_bbox(g2, tagspec, sr, cast, raise_time, o)
+        ctx.mon("export_after_in_place_edit")
+        try:
+            bb2 = B.bbox_from_annotation(ann, cast_to_bbox=cast, raise_on_time_geometries=raise_time, **_mk_from_kwargs(o))
+            got2 = (bb2.onset, bb2.offset, bb2.low_freq, bb2.high_freq, bb2.label)
+            if want2[0] == "ok" and got2 != want2[1:]:
+                ctx.violate("export_bbox:values", "export_bbox:values:stale_after_in_place_edit", observed=list(got2), expected=list(want2[1:]), spec=dict(spec, edited_to=g2))
+        except ValueError:
+            pass
 
 
 # ------------------------------------------------ sequences / annotations / round trip
@@ -480,7 +508,7 @@ def run(ctx):
     ctx.assumptions += ["inputs stay inside crowsetta's own preconditions (onset < offset, low < high); its refusals are 'dependency_precondition', not violations",
                         "two option combinations on which the label documentation is ambiguous (explicit term or term_mapping hit together with a tag_mapping hit) are not judged",
                         "expected values use the same single float operation as documented, so comparisons are exact"]
-    ctx.must_monitors += ["label_to_tags", "label_from_tags", "import_segment", "import_bbox", "export_segment", "export_bbox", "sequence_export", "roundtrip"]
+    ctx.must_monitors += ["label_to_tags", "label_from_tags", "import_segment", "import_bbox", "export_segment", "export_bbox", "sequence_export", "roundtrip", "export_after_in_place_edit"]
     ctx.must_reach += ["io/crowsetta/labels.py::label_to_tags", "io/crowsetta/labels.py::label_from_tags", "io/crowsetta/labels.py::label_from_tag",
                        "io/crowsetta/segment.py::segment_to_annotation", "io/crowsetta/segment.py::segment_from_annotation",
                        "io/crowsetta/bbox.py::bbox_to_annotation", "io/crowsetta/bbox.py::bbox_from_annotation",
